@@ -40,7 +40,8 @@
 (* a new node handed to node.insert_* is detached.  The return value of    *)
 (* pop() is not specified.  After the node an iteration stands on has      *)
 (* been taken out, or its list has been cleared / re-initialised, the      *)
-(* iteration is void (never resumed).  Iteration of an OrderedSet during   *)
+(* iteration is void (never resumed); the nodes a list held when it was    *)
+(* cleared are not used any more.  Iteration of an OrderedSet during   *)
 (* mutation is not specified.  Plain str that are not lower-case are not   *)
 (* mixed with _CaseInsensitiveString in one set / dict.                    *)
 (*                                                                         *)
@@ -227,8 +228,10 @@ ULInsNode(st, fl, c) ==
 \* extend(values): c.k = "boom" -- the iterable raises after delivering all of c.vs
 ULExtend(st, c) == Out([st EXCEPT !.lst[c.l] = @ \o c.f, !.val = SetVs(@, c.f, c.vs)],
                        IF c.k = "boom" THEN Err("Boom") ELSE ROk)
+\* clear(): the list is empty afterwards; what becomes of the nodes it held is not specified (they are forgotten)
 UClearL(st, l)  == LET s == st.lst[l] IN
-                   [st EXCEPT !.lst[l] = <<>>, !.ch = IF s = <<>> THEN @ ELSE @ \cup {s}, !.its = VoidIts(@, ToSet(s))]
+                   [st EXCEPT !.lst[l] = <<>>, !.its = VoidIts(@, ToSet(s)),
+                              !.val = [x \in DOMAIN @ |-> IF x \in ToSet(s) THEN NoV ELSE @[x]]]
 ULSetState(st, c) == Out([UClearL(st, c.l) EXCEPT !.lst[c.l] = c.f, !.val = SetVs(@, c.f, c.vs)], ROk)
 \* a copy (c.k: copy deepcopy pickle0..pickle5 state) of list l as list m
 UCopyOK(st, c)  == c.m # c.l /\ UNewOK(st, c.m)
@@ -315,7 +318,9 @@ InDomain(st, c) ==
       [] c.op = "itnext"    -> c.i \in DOMAIN st.its /\ st.its[c.i].on
       [] c.op = "onew"      -> UONewOK(st, c.l)
       [] c.op \in {"oadd", "oappend", "oremove", "oextend", "ohas", "olen", "oiter", "orev", "ofirst", "olast",
-                   "obefore", "oafter", "ogetstate", "ocopy"} -> c.l \in Sets(st)
+                   "ogetstate", "ocopy"} -> c.l \in Sets(st)
+      \* re-ordering an ABSENT item relative to itself is not specified (ValueError or KeyError)
+      [] c.op \in {"obefore", "oafter"} -> c.l \in Sets(st) /\ (SEq(c.a, c.b) => OHas(st.os[c.l], c.a))
       [] c.op = "osetstate" -> c.l \in Sets(st) /\ \A j \in 1..Len(c.as) : c.as[j].k # "U"
       [] c.op \in {"seq", "sne", "shash", "slower", "sstr", "skey", "spickle", "dget", "dkeep", "sorted"} -> TRUE
       [] OTHER -> FALSE
